@@ -220,6 +220,25 @@ func c01Together() (exprs []*refsem.E, docs [][]*val.V) {
 		bodies = append(bodies, refsem.Bin(op, a, b), refsem.Bin(op, self, a))
 	}
 	bodies = append(bodies, refsem.Un("collect", self), refsem.Un("collect", a), refsem.As(a, "x", refsem.Un("collect", refsem.Var("x"))), refsem.As(self, "x", refsem.Bin("add", refsem.Var("x"), self)))
+	// a name bound again inside: the inner binding ends with its body, the outer one is read afterwards (documents evaluated
+	// together are bound as one context, so are streams that turn out empty)
+	x := refsem.Var("x")
+	lit5, lit7 := refsem.Lit(val.IntV(5)), refsem.Lit(val.IntV(7))
+	for _, src := range []*refsem.E{a, self, lit7, refsem.Leaf("splat")} {
+		for _, body := range []*refsem.E{x, refsem.Bin("add", x, lit5), refsem.Un("collect", x)} {
+			for _, binder := range []*refsem.E{refsem.As(src, "x", body), refsem.Reduce(src, "x", refsem.Lit(val.IntV(0)), refsem.Bin("add", self, x))} {
+				for _, t := range []*refsem.E{
+					// (`binder , $x` itself runs into the listed finding: both operands can hand back the variable's own list)
+					refsem.Bin("union", binder, refsem.Un("collect", x)), refsem.Bin("add", binder, x), refsem.Bin("add", x, binder), refsem.Bin("pipe", refsem.Un("collect", binder), x),
+					refsem.Bin("pipe", refsem.Un("select", binder), x), refsem.Bin("pipe", binder, x),
+				} {
+					for _, outer := range []*refsem.E{lit5, a} {
+						bodies = append(bodies, refsem.As(outer, "x", t))
+					}
+				}
+			}
+		}
+	}
 	for _, body := range bodies {
 		exprs = append(exprs, body)
 		for _, stream := range []*refsem.E{refsem.Bin("union", self, a), refsem.Bin("union", a, self), refsem.Bin("union", a, b), refsem.Leaf("splat")} {
